@@ -12,7 +12,7 @@
 // Everything that runs gate code concurrently happens in a CHILD process (this binary re-executed with
 // --child), so that "fatal error: concurrent map iteration and map write" is an observation and not a
 // crashed check. Crashes and race reports are reported through out.GoViolation with the number of the
-// recorded finding when the culprit is one of the recorded unguarded functions.
+// open finding when the culprit is a function of an open finding (none at present: all are violations).
 package main
 
 import (
@@ -112,15 +112,13 @@ func (s site) guarded() bool {
 	return false
 }
 
-// recorded findings by function (mirrors Model.LockDiscipline.c12_known_sites)
-var knownSites = map[string]int{"Proxy.Players": 1, "Proxy.DisconnectAll": 2, "players.Range": 3}
+// OPEN findings by function (mirrors Model.LockDiscipline.c12_known_sites). Empty: findings C12-1
+// (Proxy.Players), C12-2 (Proxy.DisconnectAll) and C12-3 (players.Range) are repaired in /repo, so every
+// crash, race report or unguarded site is reported with known = nil (a violation).
+var knownSites = map[string]int{}
 
-// frames of the Go runtime's traces for the recorded functions
-var knownFrames = map[string]int{
-	"proxy.(*Proxy).Players":       1,
-	"proxy.(*Proxy).DisconnectAll": 2,
-	"proxy.(*players).Range":       3,
-}
+// frames of the Go runtime's traces for the functions of open findings (none)
+var knownFrames = map[string]int{}
 
 // ---------- proxy environment (same construction as cmd/c11) ----------
 
